@@ -22,7 +22,7 @@ PROP = dict(
           'differ, or the encodings have equal length and differ in exactly '
           'one payload byte); distinct by hash of (arity, entry point, all '
           'values)'),
-    quick=dict(configs=['asan', 'rel'], cases=14000000, maxlen=80),
+    quick=dict(configs=['asan', 'rel'], cases=16000000, maxlen=80),
     thorough=dict(configs=['asan', 'rel'], cases=150000000, maxlen=80,
                   fuzz_s=60, setmax=1 << 23),
     required_classes=['pair.equal', 'pair.adjacent', 'pair.straddle',
